@@ -861,7 +861,11 @@ def run(ctx):
     ctx.rule = ('S2C: every terminal state of Gen_Render (abstract column x companion x 2^5 options x placeholder x header '
                 'length) concretised; non-trivial = the column under test has a non-NULL value.  C2S: random tables '
                 '(1-6 columns of 12 datatypes, 0-8 rows, NULL rates 0..1, 7 separators, 10 placeholders, 2^5 options) and '
-                'real query results; distinct = distinct (options, abstract table); non-trivial = some non-NULL cell')
+                'real query results; distinct = distinct (options, abstract table); non-trivial = some non-NULL cell.  '
+                'Every table is rendered as CSV by render_csv(expand, nullvalue) AND by beanquery.render.csv.render with '
+                'all options of the record (judged once when the two texts are identical); the text by render_text or '
+                '(every other case) beanquery.render.text.render with all settings; whole query results by a BQLShell '
+                'after .set of every option')
     ctx.assumptions += ['widths are counted in code points (str.ljust), not terminal cells',
                         'cell texts, headers, placeholders without line terminators and without leading/trailing blanks '
                         '(others skipped and counted)',
